@@ -23,7 +23,7 @@ Definition scalar_entry {P} (e : entry P) : Prop :=
   exists w, e_cab e = mkcab 0%N false [w] /\
   exists n' e', net_bit (e_ident e) (e_name e) = Some (None, n', e').
 Definition bus_entry {P} (e : entry P) : Prop :=
-  is_busb (e_cab e) = true /\ c_wires (e_cab e) <> [] /\ name_ok (e_name e).
+  is_busb (e_cab e) = true /\ c_wires (e_cab e) <> [].
 Definition wf_cell {P} (cabs : list (entry P)) : Prop :=
   NoDup (map e_name cabs) /\ NoDup (map (fun e => lower (e_ident e)) cabs) /\
   Forall (fun e => scalar_entry e \/ bus_entry e) cabs.
@@ -134,26 +134,26 @@ Qed.
 
 (* the first bit creates the array cable *)
 Lemma step_bus_first {P} (s : list (entry P)) name ident lo w :
-  name_ok name -> fresh name ident s ->
+  fresh name ident s ->
   read_net s (bit_ident ident lo, bit_name name lo, w) = Some (s ++ [(name, ident, mkcab lo true [w])]).
 Proof.
-  intros Hn F. unfold read_net. rewrite (bitname_inverse ident name lo Hn).
+  intros F. unfold read_net. rewrite (bitname_inverse ident name lo).
   rewrite (fresh_find_name name ident s F), (fresh_find_ident name ident s F).
   apply fresh_add_separate. exact F.
 Qed.
 
 (* every later bit is merged into the cable added last *)
-Lemma step_bus_more {P} (s : list (entry P)) name ident : name_ok name ->
+Lemma step_bus_more {P} (s : list (entry P)) name ident :
   (forall x, In x s -> e_name x <> name) ->
   forall (ws2 ws1 : list (list P)) lo, ws1 <> [] ->
   read_nets (s ++ [(name, ident, mkcab lo true ws1)])
             (emit_from ident name (lo + N.of_nat (length ws1)) ws2) =
   Some (s ++ [(name, ident, mkcab lo true (ws1 ++ ws2))]).
 Proof.
-  intros Hn F. induction ws2 as [|w t IH]; intros ws1 lo Hne.
+  intros F. induction ws2 as [|w t IH]; intros ws1 lo Hne.
   - rewrite app_nil_r. reflexivity.
   - cbn [emit_from read_nets]. unfold read_net at 1.
-    rewrite (bitname_inverse ident name _ Hn).
+    rewrite (bitname_inverse ident name _).
     rewrite (find_name_last name ident (mkcab lo true ws1) s F).
     unfold e_cab at 1, e_name at 1 2, e_ident at 1. cbn [fst snd].
     unfold cab_is_array. cbn [c_array]. rewrite orb_true_r.
@@ -166,14 +166,14 @@ Proof.
 Qed.
 
 Lemma step_bus {P} (s : list (entry P)) name ident (c : cab P) :
-  name_ok name -> is_busb c = true -> c_wires c <> [] -> fresh name ident s ->
+  is_busb c = true -> c_wires c <> [] -> fresh name ident s ->
   read_nets s (emit_cable ident name c) = Some (s ++ [(name, ident, mkcab (c_lower c) true (c_wires c))]).
 Proof.
-  intros Hn Hb Hne F. rewrite (emit_cable_bus ident name c (proj1 (is_busb_is_bus c) Hb)).
+  intros Hb Hne F. rewrite (emit_cable_bus ident name c (proj1 (is_busb_is_bus c) Hb)).
   destruct (c_wires c) as [|w ws]; [congruence|]. cbn [emit_from read_nets].
-  rewrite (step_bus_first s name ident (c_lower c) w Hn F).
+  rewrite (step_bus_first s name ident (c_lower c) w F).
   replace (N.succ (c_lower c)) with (c_lower c + N.of_nat (length [w]))%N by (cbn [length]; lia).
-  rewrite (step_bus_more s name ident Hn (fun x Hx => proj1 (F x Hx)) ws [w] (c_lower c))
+  rewrite (step_bus_more s name ident (fun x Hx => proj1 (F x Hx)) ws [w] (c_lower c))
     by discriminate.
   reflexivity.
 Qed.
@@ -183,10 +183,10 @@ Lemma step_entry {P} (s : list (entry P)) (e : entry P) :
   scalar_entry e \/ bus_entry e -> fresh (e_name e) (e_ident e) s ->
   read_nets s (emit_cable (e_ident e) (e_name e) (e_cab e)) = Some (s ++ [norm_entry e]).
 Proof.
-  intros [(w & Hc & n' & e' & Hnb)|(Hb & Hne & Hn)] F.
+  intros [(w & Hc & n' & e' & Hnb)|(Hb & Hne)] F.
   - rewrite Hc, (step_scalar s _ _ w n' e' Hnb F). unfold norm_entry, is_busb. rewrite Hc.
     cbn [c_array c_wires length orb Nat.ltb Nat.leb]. rewrite <- Hc, <- entry_eta. reflexivity.
-  - rewrite (step_bus s _ _ _ Hn Hb Hne F). unfold norm_entry. rewrite Hb. reflexivity.
+  - rewrite (step_bus s _ _ _ Hb Hne F). unfold norm_entry. rewrite Hb. reflexivity.
 Qed.
 
 (* ------------------------------------------------------------------------------------------ *)
@@ -248,9 +248,9 @@ Proof.
   - vm_compute. repeat constructor; cbn [In]; intuition discriminate.
   - vm_compute. repeat constructor; cbn [In]; intuition discriminate.
   - apply Forall_cons; [|apply Forall_cons; [|apply Forall_cons; [|apply Forall_nil]]].
-    + right. split; [reflexivity|split; [discriminate|vm_compute; discriminate]].
+    + right. split; [reflexivity|discriminate].
     + left. eexists. split; [reflexivity|]. do 2 eexists. vm_compute. reflexivity.
-    + right. split; [reflexivity|split; [discriminate|vm_compute; discriminate]].
+    + right. split; [reflexivity|discriminate].
 Qed.
 
 (* OUTSIDE wf_cell (the second cable is not a scalar_entry: its net is taken for a bit): a
@@ -271,7 +271,7 @@ Proof.
   cbv zeta. split; [|split; [|split; [|split; [|split]]]].
   - vm_compute. repeat constructor; cbn [In]; intuition discriminate.
   - vm_compute. repeat constructor; cbn [In]; intuition discriminate.
-  - split; [reflexivity|split; [discriminate|vm_compute; discriminate]].
+  - split; [reflexivity|discriminate].
   - intros (w & _ & n' & e' & H). vm_compute in H. discriminate.
   - vm_compute. reflexivity.
   - vm_compute. discriminate.
@@ -297,7 +297,7 @@ Proof.
   - vm_compute. repeat constructor; cbn [In]; intuition discriminate.
   - vm_compute. repeat constructor; cbn [In]; intuition discriminate.
   - apply Forall_cons; [|apply Forall_cons; [|apply Forall_nil]]; right;
-      (split; [reflexivity|split; [discriminate|vm_compute; discriminate]]).
+      (split; [reflexivity|discriminate]).
   - vm_compute. intros H. inversion H as [|x l Hin _]. apply Hin. left. reflexivity.
   - vm_compute. reflexivity.
   - vm_compute. discriminate.
